@@ -278,7 +278,12 @@ def call_class(cost_obj, X, beta, m, n_train=None):
     det.transform_scores(df)
     det.predict(df)
     det.fit(pd.DataFrame(train))
-    ts = np.asarray(det.transform_scores(df), dtype=float).reshape(-1)        # first call after the refit: nothing may be reused
+    # ... and on the SAME fit: calls on another series with an equal index (same length, default RangeIndex) come first; what they computed
+    # describes that series, not df
+    other = pd.DataFrame(np.ascontiguousarray(X[::-1]) * 1.5 + 0.25)
+    det.predict(other)
+    det.transform_scores(other)
+    ts = np.asarray(det.transform_scores(df), dtype=float).reshape(-1)        # nothing of the earlier calls may be reused
     y = det.predict(df)
     cps = np.asarray(y).reshape(-1)
     attr = np.asarray(det.scores, dtype=float).reshape(-1)
